@@ -1,10 +1,12 @@
 // h_array - C01 (array data), C13 (dimension descriptors), C14 (property values), C15 (data frames)
 #include "common.hpp"
 #include "nixutil.hpp"
+#include "axis.hpp"
 
 using namespace vf;
 
 #include "c01.hpp"
+#include "c13.hpp"
 
 int main(int argc, char **argv) {
     if (argc < 3) {
@@ -15,6 +17,7 @@ int main(int argc, char **argv) {
     Options opt = parse_args(argc, argv, 2);
     int rc = 2;
     if (prop == "c01") rc = drive("C01", opt, c01::body);
+    if (prop == "c13") rc = drive("C13", opt, c13::body);
     if (opt.own_work) rm_rf(opt.work);
     return rc;
 }
